@@ -354,7 +354,10 @@ def gen_removal2(rng):
             sc = []
             for _ in range(rng.randint(1, 4)):
                 y = rng.random(); e = "e%d" % rng.randrange(nE); ty = rng.randrange(NTY)
-                if y < 0.5: sc.append("remove %s %d" % (e, ty))
+                if y < 0.12:
+                    # the same component removed, put back and removed again before the next poll: two removals
+                    sc += ["remove %s %d" % (e, ty), "insert %s %d %d" % (e, ty, rng.randrange(3)), "remove %s %d" % (e, ty)]
+                elif y < 0.5: sc.append("remove %s %d" % (e, ty))
                 elif y < 0.65: sc.append("despawn %s" % e)
                 elif y < 0.85: sc.append("insert %s %d %d" % (e, ty, rng.randrange(3)))
                 elif y < 0.93: sc.append("run s%d" % rng.randrange(nS))
@@ -419,8 +422,19 @@ def gen_dsp(rng):
         out.append("def 0 1"); out += ["run 0"]
         setup.append("on %s %d bc:1 dsp:e0 dsp:e1" % (rng.choice("ppc"), g.ndefs)); nS += 1
         setup.append("spawnsys %d" % (g.ndefs + 1)); nS += 1
+    triple = (not twin) and rng.random() < 0.3
+    if triple:
+        # a cleanup / revokable reactor with *only* despawn triggers, on three entities: the first death starts it, its run
+        # despawns the other two and calls another system, so two despawn reactions for it are postponed while the handles
+        # travelling with them are all that keeps it alive
+        while nE < 3: setup.insert(0, "spawn"); nE += 1
+        out.append("def 0 2"); out += ["run 3", "despawn e1", "despawn e2", "run s%d" % (nS + 1), "run 0"]
+        out.append("def 0 1"); out += ["run 0"]
+        setup.append("on %s %d dsp:e0 dsp:e1 dsp:e2" % (rng.choice("ccr"), g.ndefs)); nS += 1
+        setup.append("spawnsys %d" % (g.ndefs + 1)); nS += 1
     out.append("top acts %d" % len(setup)); out += setup
     if twin and rng.random() < 0.7: out += ["top acts 1", "broadcast 1 %d" % g.newpid()]
+    if triple and rng.random() < 0.8: out += ["top acts 1", "despawn e0"] + (["top frameend"] if rng.random() < 0.5 else [])
     parents = Parents()
     for _ in range(rng.randint(3, 8)):
         x = rng.random()
@@ -904,9 +918,18 @@ def gen_ewr(rng):
             runs.append(sc)
         out.append("def 0 %d" % len(runs))
         for sc in runs: out.append("run %d" % len(sc)); out += sc
+    # a third of the scenarios: entity world reactor 0 re-sends, in its first run, the entity event it reacts to, while a
+    # plain reactor listens to the same event on the same entity (registered before or after it): sibling reactions of one
+    # event are postponed / replayed out of their preparation order
+    resend = rng.random() < 0.33
+    if resend:
+        out.append("def 0 2"); out += ["run 1", "entevent e0 0 %d" % g.newpid(), "run 0"]
     for k in range(g.n_wr): out.append("wr %d" % rng.randrange(g.ndefs))
-    for k in range(g.n_ewr): out.append("ewr %d" % rng.randrange(g.ndefs))
+    for k in range(g.n_ewr): out.append("ewr %d" % (g.ndefs if (resend and k == 0) else rng.randrange(g.ndefs)))
     setup = ["spawn"] * nE
+    if resend:
+        plain = "on p %d eev:e0:0" % rng.randrange(g.ndefs)
+        setup += [plain, "ewradd 0 e0 %d" % rng.randrange(9)] if rng.random() < 0.5 else ["ewradd 0 e0 %d" % rng.randrange(9), plain]
     for e in range(nE):
         if rng.random() < 0.8: setup.append("insert e%d 0 %d" % (e, rng.randrange(4)))
         if rng.random() < 0.5: setup.append("insert e%d 1 %d" % (e, rng.randrange(4)))
@@ -916,6 +939,7 @@ def gen_ewr(rng):
     for w in range(g.n_wr):
         setup.append("wradd %d %s" % (w, g.trigs(1, 3, ["bc", "res", "mut", "ins", "eev", "emut"])))
     out.append("top acts %d" % len(setup)); out += setup
+    if resend: out += ["top acts 1", "entevent e0 0 %d" % g.newpid()]
     if g.n_wr and rng.random() < 0.4:
         # a world reactor with triggers on two entities and a broadcast; one entity dies; the whole bundle is removed
         ea, eb = rng.sample(range(nE), 2)
